@@ -1583,4 +1583,151 @@ if !rt.Validate(v$u.s) {
 	return
 }
 $out := v$u.s
+
+### gochan conc
+@body
+c$u := make(chan string)
+go func() { c$u <- $in }()
+$out := <-c$u
+
+### goarg conc
+@body
+r$u := make(chan string, 1)
+go func(s string) { r$u <- s }($in)
+$out := <-r$u
+
+### gocapwrite conc
+@imports sync
+@body
+var o$u string
+var wg$u sync.WaitGroup
+wg$u.Add(1)
+go func() {
+	o$u = $in
+	wg$u.Done()
+}()
+wg$u.Wait()
+$out := o$u
+
+### gostruct conc
+@imports sync
+@decls
+type H$u struct{ v string }
+@body
+h$u := &H$u{}
+var wg$u sync.WaitGroup
+wg$u.Add(1)
+go func() {
+	h$u.v = $in
+	wg$u.Done()
+}()
+wg$u.Wait()
+$out := h$u.v
+
+### goglobal conc globals
+@imports sync
+@decls
+var gg$u string
+@body
+var wg$u sync.WaitGroup
+wg$u.Add(1)
+go func() {
+	gg$u = $in
+	wg$u.Done()
+}()
+wg$u.Wait()
+$out := gg$u
+
+### goworker conc
+@imports sync
+@decls
+func worker$u(s string, out *string, wg *sync.WaitGroup) {
+	*out = s
+	wg.Done()
+}
+@body
+var o$u string
+var wg$u sync.WaitGroup
+wg$u.Add(1)
+go worker$u($in, &o$u, &wg$u)
+wg$u.Wait()
+$out := o$u
+
+### gomutex conc
+@imports sync
+@decls
+type M$u struct {
+	mu sync.Mutex
+	v  string
+}
+@body
+m$u := &M$u{}
+d$u := make(chan bool)
+go func() {
+	m$u.mu.Lock()
+	m$u.v = $in
+	m$u.mu.Unlock()
+	d$u <- true
+}()
+<-d$u
+m$u.mu.Lock()
+$out := m$u.v
+m$u.mu.Unlock()
+
+### gomapshared conc
+@imports sync
+@body
+m$u := map[string]string{}
+var wg$u sync.WaitGroup
+wg$u.Add(1)
+go func() {
+	m$u["k"] = $in
+	wg$u.Done()
+}()
+wg$u.Wait()
+$out := m$u["k"]
+
+### goreader conc
+@decls
+type H$u struct{ v string }
+@body
+h$u := &H$u{v: $in}
+r$u := make(chan string, 1)
+go func() { r$u <- h$u.v }()
+$out := <-r$u
+
+### gochanofptr conc
+@decls
+type H$u struct{ v string }
+@body
+c$u := make(chan *H$u)
+go func() { c$u <- &H$u{v: $in} }()
+$out := (<-c$u).v
+
+### gopipeline conc
+@body
+a$u := make(chan string)
+b$u := make(chan string)
+go func() { a$u <- $in }()
+go func() { b$u <- <-a$u }()
+$out := <-b$u
+
+### gomethod conc
+@imports sync
+@decls
+type W$u struct {
+	v  string
+	wg sync.WaitGroup
+}
+
+func (w *W$u) run(s string) {
+	w.v = s
+	w.wg.Done()
+}
+@body
+w$u := &W$u{}
+w$u.wg.Add(1)
+go w$u.run($in)
+w$u.wg.Wait()
+$out := w$u.v
 `
